@@ -565,7 +565,7 @@ int main(int argc, char **argv) {
     C_CORPUS = mc_counter("corpus_addresses_through_all_backends");
     if (!strcmp(PROP, "C18corpus")) {
         mc_driver = "C18"; CORPUS_DEEP = mc_thorough; if (corpus_load()) return 2; corpus_objects();
-        static const int PH[] = { CP_TLD, CP_IDN, CP_LONGIDN, CP_ALTDOT, CP_LABELLEN, CP_MAXLIT, CP_EMAIL, CP_DOMAIN, CP_LITERAL, CP_LOCAL, CP_BYTES, CP_CROSS, CP_LONG };
+        static const int PH[] = { CP_TLD, CP_IDN, CP_LONGIDN, CP_ALTDOT, CP_LABELLEN, CP_MAXLIT, CP_EMAIL, CP_DOMAIN, CP_LITERAL, CP_LOCAL, CP_BYTES, CP_CROSS, CP_LONG, CP_SCALARS };
         for (unsigned i = 0; i < sizeof PH / sizeof PH[0]; i++) { CURPH = PH[i]; char nm[64]; snprintf(nm, sizeof nm, "3 backends: %.40s", corpus_name(CURPH)); mc_parallel(nm, corpus_shards(CURPH), corpus_shard, NULL); }
         return mc_finish();
     }
